@@ -21,7 +21,7 @@ pub const ALPHABET: &[&str] = &[
     // words / units
     "kg", "min", "ºC", "h",
     // multi-byte
-    "é", "—", "😀", "·",
+    "é", "—", "😀", "·", "\u{feff}",
     // structure
     "---", "[mode]", "steps", "ref", "text", "[duplicate]", "components",
 ];
@@ -112,7 +112,7 @@ pub fn lines_strategy() -> impl Strategy<Value = InputCase> {
             "> note", ">", "", " ", "-- c", "[- c -]", "@a{1%kg}", "@&a{2}", "#b{}", "~{5%min}", "~t{}", "@&(~1)x{}",
             "@&(=1)y{}", "@a|b{}", "@c{1-2%g}", "@d{=1 kg}(n)", "bake at 180 ºC", "@./x/y{}", "time: 5", "servings: [1, 2]",
             "servings: []", "tags: []", "time: {prep: 1h, cook: 20}", "author: {name: a, url: \"https://x.y\"}", "? [a]\n: b",
-            "locale: en_GB", "source: A <https://a.b/c>", "Weigh 2.1.3 g and 10.11.2024 kg", "[- c -]>> k: v", "[- c -] >> servings: 4", "  >> k: v", "\t>> k: v", "[- a\nb -]>> k2: v", "x >> k: v", "[-]>> k: v", ">>k:v", ">> k : v : w", "Add 5 g of salt", "use 3 kg", "prep time: 10 min", "cook time: 1.5 hours",
+            "locale: en_GB", "source: A <https://a.b/c>", "Weigh 2.1.3 g and 10.11.2024 kg", "\u{feff}Mix @a{1%kg}", "\u{feff}é @{1%kg} é", "@&a(\u{a0}sifted\u{a0})", "#&b{}(\u{3000}清潔)", "@&a{2}(\u{a0})", "== sec == trailing 2", "= a = b", ">>[-\n\n\n", "a @&x[- c\n\n\n d -]{} b", "[- c -]>> k: v", "[- c -] >> servings: 4", "  >> k: v", "\t>> k: v", "[- a\nb -]>> k2: v", "x >> k: v", "[-]>> k: v", ">>k:v", ">> k : v : w", "Add 5 g of salt", "use 3 kg", "prep time: 10 min", "cook time: 1.5 hours",
         ]).prop_map(|s| s.to_string()),
         1 => (proptest::sample::select(vec!["time", "prep time", "cook time", "servings", "tags", "author", "source", "locale", "title", "duration"]),
               proptest::sample::select(vec![">> ", ""]), metadata_value_strategy())
